@@ -19,8 +19,9 @@ RULE = ("seeded single calls of every function/method/operator with a NumPy name
         "(function, spelling, option keys, operand kinds and dtypes).")
 ASSUMPTIONS = ["NumPy 2.x value-based casting rules (NEP 50) on the same operands are the specification",
                "MyGrad raising where NumPy returns is recorded (mg_raises_only), judged by other properties"]
-TIERS = {"quick": {"cases": 12000}, "thorough": {"cases": 400000}}
-FLOORS = {"quick": {"compared": 6000, "compared_untracked": 6000}, "thorough": {"compared": 200000, "compared_untracked": 200000}}
+TIERS = {"quick": {"cases": 12000}, "thorough": {"cases": 1500000}}
+FLOORS = {"quick": {"compared": 6000, "compared_untracked": 6000},
+          "thorough": {"compared": 30000, "compared_untracked": 30000}}
 
 DTYPES = ["bool", "int8", "int32", "int64", "uint8", "float16", "float32", "float64"]
 SPECIALS = [0.0, -0.0, float("inf"), float("-inf"), float("nan"), 1.0, -1.0]
